@@ -72,14 +72,19 @@ CHECKS = {
         technique='Lean 4 proof (induction over the event list, omega) over a hand model in exact integer arithmetic; differential correspondence with float tolerance',
         design='5 C13'),
     'C07': dict(
-        text='Model of write_track/save and of the whole reader (header, chunks, running status, sysex, meta, size-counted loop) '
-             'tied byte-for-byte to the implementation on generated files, unstorable variants and byte-level mutants; theorems so far: '
-             'success of write_track implies every time is a non-negative integer and no message is real-time, type-0 rule, bad time '
-             'anywhere => ValueError, VLQ read-back; the full save/load round-trip theorem is under construction and the round trip '
-             'itself is decided by the independent oracle over the generated domain.',
-        note='PARTIAL: the round-trip clause and the load-save-load fixed point rest on the correspondence + oracle in this revision, not yet on a theorem. '
-             'UnknownMetaMessage with a known type byte and header fields outside 16 bits are outside the property.',
-        technique='Lean 4 proof (safety of the writer) over a hand model of writer and reader; byte-exact differential correspondence incl. mutants',
+        text='Theorem C07_roundtrip: for every storable file (any number of tracks and events; channel, system-common, sysex, known and '
+             'unknown meta events; natural-number deltas; single-byte charset) load(save(f)) succeeds whenever save does and returns the same type, '
+             'ticks_per_beat and, per track, exactly fix_end_of_track(track) - proved through the per-event lemma (running status coupling '
+             'invariant between writer and reader), the size-counted reader loop, the chunk and the header. C07_roundtrip_normal: identity on '
+             'files already ending in one end_of_track. C07_saved_fixed_point: the loaded form is storable, re-saves to the same bytes and '
+             're-loads to itself. Refusals: type-0 rule, bad time anywhere => ValueError, success of write_track implies all times are '
+             'non-negative integers and no message is real-time. Model of writer and of the whole reader tied byte-for-byte to the '
+             'implementation on generated files, unstorable variants and byte-level mutants.',
+        note='PARTIAL: (1) the fixed-point clause for ARBITRARY loadable byte strings (not produced by save) rests on the correspondence + oracle: '
+             'the theorem covers the saved form only; (2) utf-8 charset files are outside C07_roundtrip (covered by C17 theorems and by the '
+             'correspondence); (3) chunk bodies of 2^32 bytes or more and payloads above the reader limit of 1 000 000 bytes are excluded by '
+             'explicit hypotheses. UnknownMetaMessage with a known type byte and header fields outside 16 bits are outside the property.',
+        technique='Lean 4 proof (round trip by induction over events/tracks with a writer-reader coupling invariant) over a hand model of writer and reader; byte-exact differential correspondence incl. mutants',
         design='5 C07'),
     'C08': dict(
         text='Padded-VLQ reading theorem for any legal spelling, minimality and shape of written VLQs, clip is the identity on valid bytes '
